@@ -27,10 +27,10 @@ CLAIMED = {
    ref='3/C15', note=TB),
  'C04': dict(cat='proof', tech='abstract interpretation of MIR with cbrtf as a function summary; exact rational comparison of the extracted opsin rows with libjxl; relative-error and Lipschitz bounds',
    text='The forward XYB kernel extracted from MIR is shown to have the shape X=(L-M)/2, Y=(L+M)/2, B=S with L,M,S = cbrtf(max(0, A_i.rgb + b)) - cbrtf(b); the rows A_i and the bias the code computes (bit-exact constants) are compared with libjxl in rational arithmetic, roundings bounded a priori, and the cube root treated through its 1-ulp contract; the resulting bound covers all of [0,4]^3 and the stated negative-component stratum.',
-   ref='3/C04', note='Conditional on A-cbrt (cbrtf within 1 ulp on normal arguments, the accuracy clause of C18 which is not decided statically). ' + TB),
+   ref='3/C04', note='Uses A-cbrt (cbrtf within 1 ulp on normal arguments) - now decided by C18\'s accuracy clause. ' + TB),
  'C05': dict(cat='proof', tech='abstract interpretation of MIR of forward followed by inverse; polynomial identity c^3 = mix; exact rational product INV*A; a-priori rounding bounds',
    text='Forward and inverse are interpreted back to back; the output is a cubic polynomial in the three cube-root atoms whose leading coefficients are the inverse matrix entries; replacing c_i^3 by the exact mix polynomial gives INV*A - I and the bias defect in exact rationals, and all roundings are bounded, giving |back - p| <= bound for every p in [0,1]^3.',
-   ref='3/C05', note='Conditional on A-cbrt. ' + TB),
+   ref='3/C05', note='Uses A-cbrt (decided by C18). ' + TB),
  'C08': dict(cat='proof', tech='abstract interpretation of MIR of decode followed by encode; exact rational product of the extracted f32 matrices; exact integer-wrapper table; a-priori rounding bounds',
    text='Decode and encode are interpreted back to back per configuration; the pre-rounding value of each output plane is an affine form in the clamped normalised samples with coefficients M_fwd*M_inv*scale computed exactly; |v_p - clampS_p| < 1/2 is shown for every legal triple at once, the wrapper is shown to be exactly clamp(round), and the full-range chroma special case is shown to fire for code 0 only.',
    ref='3/C08', note='4:4:4 as stated. ' + TB),
@@ -42,25 +42,29 @@ CLAIMED = {
    ref='3/C13', note='Finiteness through the PQ to-linear curve is not decided (interval precision). Geometry preconditions (dimensions multiples of the subsampling, height >= 1) are outside the quantifier. ' + TB),
  'C16': dict(cat='proof', tech='constant propagation of the anchor values through kernels extracted from MIR; affine/error analysis along the grey axis; Lipschitz bound of the cube root',
    text='Anchors are points or the one-parameter grey axis: the extracted kernels are folded at the anchor constants (exact machine arithmetic of the analyser, through the real powf/cbrtf bodies) for all matrices (standard and primaries-derived), ranges, depths, curves and primaries, and bounded along the whole grey axis for YUV, primaries, XYB and HSL.',
-   ref='3/C16', note='XYB grey clause conditional on A-cbrt; log/HLG curve anchors on A-libm. ' + TB),
- 'C03': dict(cat='proof', tech='closed-form extraction of each curve from MIR (helpers as function summaries) + interval branch and bound against the standard formula; match-table rules; counter-example search on the real kernels',
-   text='Partial claim (formula level): each of the 14x2 scalar curves is extracted from MIR as a piecewise closed form with powf/expf as applications and shown, by interval branch and bound over all of [0,1], to agree with the standard\'s defining formula within a fifth of the budget when the helpers are the ideal functions; Linear is the identity expression and the BT.1886 aliases have the identical kernel. Constant folding of the real kernels at fixed points can refute the full statement but proves nothing.',
-   ref='3/C03', note='NOT decided: that the polynomial powf/expf approximations keep the curves within 2.5e-4 / 5.7e-4 (no verified-numerics tool available; DESIGN.md section 5). A-elem, host libm within 1 ulp, xvYCC on [0,1] read as the BT.1886 pair. ' + TB),
+   ref='3/C16', note='XYB grey clause uses A-cbrt (decided by C18); log/HLG curve anchors on A-libm. ' + TB),
+ 'C03': dict(cat='proof', tech='closed-form extraction of each curve from MIR (helpers as function summaries) + interval branch and bound against the standard formula (formula level) + paired interval error propagation (ideal value, computed-minus-ideal) with a certified local error model of the polynomial powf/expf (implementation level); match-table rules for Linear and the aliases',
+   text='Each of the 14x2 scalar curves is extracted from MIR as a piecewise closed form with powf/expf as applications. (1) Read with ideal functions it is compared with the standard\'s defining formula over all of [0,1] by interval branch and bound. (2) sup |computed - ideal| over [0,1] is bounded by propagating, through the same expression, the binary32 rounding of every operation, one ulp for each libm call, and the local error of powf/expf derived from their MIR bodies (IEEE field decomposition, exact polynomial coefficients, mean-value interval bounds of G(m)-log2 m and Q(f)/2^f-1 on the sub-box the arguments occupy, a-priori Horner round-off). (1)+(2) < budget is proved for all 26 non-trivial curve directions (PQ to_gamma: 5.66e-4 < 5.7e-4), i.e. for every real - hence every f32 - x in [0,1]. Linear is the identity expression; the BT.1886 aliases have the identical kernel.',
+   ref='8.8', note='A-libm: f32 ln/log10 of the target libm within 1 ulp, sqrt correctly rounded. Default build (fastmath, no FMA); FMA and libm builds: C20. xvYCC on [0,1] read as the BT.1886 pair. ' + TB),
+
  'C06': dict(cat='proof', tech='constant propagation of the primaries transform through MIR (bit-exact f32 matrix) + exact rational comparison with the CIE/Bradford derivation; a-priori rounding bound',
    text='For the 11 supported primaries and both directions the 3x3 transform the code builds is obtained by constant propagation (exact binary32 semantics), read off the linear per-pixel kernel and compared in rational arithmetic with M_out^-1*Bradford*M_in from the H.273 chromaticities; white->white, there-and-back and the bit-exact pass-through for identical primaries are decided on the same data.',
    ref='3/C06', note=TB),
- 'C10': dict(cat='proof', tech='closed-form extraction of both curve directions from MIR, symbolic composition, interval branch and bound of |G(F(x))-x| with ideal elementary functions; counter-example search on the real kernels',
-   text='Partial claim (formula level): to_gamma(to_linear(x)) is composed symbolically from the two extracted kernels and shown to be the identity on all of [0,1] within a fifth of the budget when powf/expf are ideal - i.e. the two dispatch tables select mutually inverse formulas with matching constants.',
-   ref='3/C10', note='NOT decided: the approximation error of the composed polynomial powf\'s. A-elem. ' + TB),
- 'C18': dict(cat='proof', tech='interval + NaN-flag analysis of the helper bodies with unconstrained arguments; sign-parity dataflow; piecewise interval analysis; counter-example search by constant folding',
-   text='Partial claim: totality of powf/expf/cbrtf/multiply_add for every f32 bit pattern in all build configurations (every assert and the unchecked conversion discharged with arguments TOP), oddness of cbrtf by sign-parity of every operation, and the saturation clauses of expf (+inf on [89,1e38], 0 on [-1e38,-88]) by interval analysis per integer cell of log2(e)*x.',
-   ref='3/C18', note='NOT decided: the accuracy numbers (1 ulp, 2.5e-4+8e-6|y|, 1e-5); constant folding at fixed points can only refute them. ' + TB),
+ 'C10': dict(cat='proof', tech='closed-form extraction of both curve directions from MIR, symbolic composition, interval branch and bound of |G(F(x))-x| (formula level) + paired interval error propagation with the certified local powf/expf error model through the composition (implementation level)',
+   text='to_gamma(to_linear(x)) is composed symbolically from the two extracted kernels. (1) With ideal powf/expf it is the identity on all of [0,1] (interval branch and bound): the two dispatch tables select mutually inverse formulas with matching constants. (2) The implementation error of the composition (rounding, libm, certified powf/expf error, with the correlation of the two directions kept by propagating signed error intervals on small boxes) is bounded; (1)+(2) < 2.5e-4 is proved for the 12 non-PQ curves.',
+   ref='8.8', note='NOT decided: the PQ round trip at implementation level (bound 7.4e-4 quick / 5.8e-4 thorough vs 5.7e-4: the a-priori round-off of the log2 polynomial is multiplied by |y| = 78.84 twice); PQ is decided at formula level only. A-libm. ' + TB),
+
+ 'C18': dict(cat='proof', tech='interval + NaN-flag analysis of the helper bodies with unconstrained arguments (totality); sign-parity dataflow (oddness); piecewise interval analysis (expf saturation); certified approximation error: IEEE-field decomposition of the MIR bodies, exact polynomial coefficients, mean-value interval branch and bound against log2/exp2, period-3 analysis of the cbrt bit trick, rational error map of the iteration (sympy), a-priori round-off',
+   text='Totality of powf/expf/cbrtf/multiply_add for every f32 bit pattern in all build configurations; oddness of cbrtf; expf saturation. Accuracy: powf body = exp2(log2-by-fields(x)*y): sup|P(m)(m-1)-log2 m| on [1,2) and sup|Q(f)/2^f-1| on [-0.5,1.5] (the range trunc(X-0.5) really leaves) are bounded by interval branch and bound in mean-value form, Horner round-off by interval running-error analysis; the resulting relative error bound is convex in |y| and below 2.5e-4+8e-6|y| at |y|=0 and 80. expf: same Q on [0,1] plus the error of the log2(e) constant, bound 7.2e-6 < 1e-5 on [-85,85]. cbrtf: the bits/3+B1 guess is within 3.21% of cbrt (exact piecewise-linear analysis over one period of 3 binades), the two Halley steps map relative error e to H(e)=O(e^9) (rational identity), f64 round-off is cancellation-free: the f64 iterate is within 2^-26 relative, so its rounding to f32 is within 1 ulp for every normal argument.',
+   ref='8.8', note='Host float64 interval arithmetic with outward rounding; host libm log/exp within 1 ulp as reference. In the libm build (K3) the helpers ARE the libm calls (A-libm). ' + TB),
+
  'C19': dict(cat='proof', tech='abstract interpretation of MIR with symbolic entries; exact polynomial identity with the textbook definition + a-priori rounding bound; rational-function identity and divisor analysis for invert (sympy)',
    text='Every public method of Matrix/RowVector/ColVector (f32, f64; FMA and non-FMA builds) is interpreted with symbolic entries in [-2,2]; each result polynomial must be identical to the textbook one and the rounding bound below 1e-5; invert is shown to be the rational inverse on both sides with every executed division\'s divisor vanishing only where det does.',
    ref='3/C19', note='NOT decided: A*invert(A) within 1e-4 under rounding for |det| >= 0.5 (first-order bound does not close). ' + TB),
- 'C20': dict(cat='proof', tech='cargo feature resolution (manifest analysis) + cfg reachability and sibling-expression identity on the MIR of the build configurations',
-   text='Partial claim: the feature wiring (fastmath on by default, off with --no-default-features) is read from cargo\'s own resolution; in the fastmath-off build powf/expf/cbrtf are exactly the libm calls; the fused and unfused arms of every FMA switch denote a*b+c; the conversion kernels outside the helpers are identical expressions in both builds; C01/C02/C08 budgets are re-established in the FMA build.',
-   ref='3/C20', note='NOT decided: numeric agreement of the fastmath and libm builds within the fastmath budget (approximation accuracy). ' + TB),
+ 'C20': dict(cat='proof', tech='cargo feature resolution (manifest analysis) + cfg reachability and sibling-expression identity on the MIR of the build configurations + the C03 curve-budget analysis (formula level + certified implementation error) repeated with the FMA and the libm build\'s kernels and helper bodies',
+   text='Feature wiring (fastmath on by default, off with --no-default-features) from cargo\'s own resolution; in the fastmath-off build powf/expf/cbrtf are exactly the libm calls on their arguments; fused and unfused arms of every FMA switch denote a*b+c; the conversion kernels outside the helpers are identical expressions in both builds; C01/C02/C08 budgets re-established in the FMA build; every transfer curve within its C03 budget in the FMA build and within 5e-5 in the libm build (25 of 26 directions); the fastmath and libm builds agree within the fastmath budget on [0,1] for 25 of 26 curve directions (|fast-ideal|+|libm-ideal| with identical ideal kernels).',
+   ref='8.8', note='NOT decided: PQ to_linear in the libm build (5e-5) and its agreement clause - under A-libm (one full ulp) the cancellation C2-C3*x^(1/m2) near x=1 gives 4.6e-5 before the inverse OOTF; agreement of the builds for the XYB/HSL conversions beyond C18\'s cbrtf clause. ' + TB),
+
  'C17': dict(cat='proof', tech='per-cell branch resolution of the kernels extracted from MIR (exact rational evaluation at a generic point) + rational-function identities (sympy) + linear inequalities at simplex vertices; exact folding',
    text='Partial claim (formula level): on each of the 6 strict orderings of (r,g,b) x {L<1/2, L>1/2} the branch structure of both kernels is constant; the rational functions the code computes there are shown identical to the hexcone definition (H, S, L), the composition hsl_to_lrgb(lrgb_to_hsl(p)) identical to p, and H in [0,360) by linear inequalities at the simplex vertices; L=0 -> black and L=1 -> white for every finite hue/saturation by exact folding.',
    ref='3/C17', note='NOT decided: the rounding tolerances (1e-6, 1e-4, 0.01 deg, 1e-5), S <= 1 under rounding, the epsilon-slivers around ties/black/white. ' + TB),
